@@ -836,3 +836,28 @@ func literalArrayOf(v ssa.Value) *ssa.Alloc {
 	}
 	return a
 }
+
+// literalMapOf: v is a local map created by a map literal (`make` followed by constant-position updates) that does
+// not escape: it is only updated and looked up. Returns the MakeMap, or nil.
+func literalMapOf(v ssa.Value) *ssa.MakeMap {
+	mm, ok := v.(*ssa.MakeMap)
+	if !ok || mm.Referrers() == nil {
+		return nil
+	}
+	for _, r := range *mm.Referrers() {
+		switch r := r.(type) {
+		case *ssa.MapUpdate:
+			if r.Map != mm {
+				return nil
+			}
+		case *ssa.Lookup:
+			if r.X != mm {
+				return nil
+			}
+		case *ssa.DebugRef:
+		default:
+			return nil
+		}
+	}
+	return mm
+}
